@@ -156,7 +156,7 @@ end Tab
 /-- Result of a modelled Rust function: value, error value, or a panic / UB site reached. -/
 inductive Res (ε α : Type)
   | ok (a : α) | err (e : ε) | trap (why : String)
-  deriving Repr
+  deriving Repr, DecidableEq
 
 deriving instance DecidableEq for Except
 
